@@ -23,7 +23,9 @@ RULE = ('one case = function x typecode x flag combination x mode (x first dimen
         'omitted or given alone, so that the documented default formulas decide; "r" one documented requirement '
         'violated at a time (typecodes, non-matrix, flags, zero/negative increments, negative offsets, small ld, '
         'complex scalars).  non-trivial = a valid call that addresses at least one element, or a call that must be '
-        'rejected')
+        'rejected'
+        ' Call histories: for every function all ordered pairs (a, b) of configurations (order 3 / 4 x every flag keyword given each value or '
+        'omitted); b observed right after a must equal b observed in a process that has called nothing (explicit-state, depth 2 + displacing prefix)')
 ASSUME = ['the default of n in copy/axpy/dot/dotu/nrm2 is read with |inc| as in the docstring of swap (the docstrings '
           'write /incx) and "len-offset-1" with the obvious names (docstring typos offsetx for offsety etc.)',
           'buffer-size consistency means len >= offset + 1 + (n-1)|inc| for vectors and offset + (cols-1)*ld + rows for '
